@@ -8,7 +8,9 @@ The constants of the model are derived from the tree under test AT CHECK TIME:
     bound there, and for each non-ioflo import target whether it exists, what it loads and binds (its closure), which
     of the names asked from it are attributes / submodules / missing.
 TLC then explores Imports.tla; binding A replays every Boot --Import(m)--> edge in a bare child and compares outcome,
-loaded and bound sets; seeded orders of 2-4 modules are executed in bare children, the children log the module load
+loaded and bound sets; ordered pairs are covered systematically (for every module m1 one bare child imports m1 and then
+every other module in turn: each import must end as it does alone and add exactly its cold closure; the chains are validated
+by TLC as well); seeded orders of 2-4 modules are executed in bare children, the children log the module load
 starts (sys.meta_path observer) and the sys.modules / bound deltas, and binding B lets TLC decide whether each recorded
 execution is a behaviour of the specification (this keeps the ast-derived constants honest).
 """
@@ -27,6 +29,8 @@ from ..tlc import TlcError
 
 SPEC_DIR = env.SPECS + "/imports"
 PKG = "ioflo"
+ROOT = [env.REPO]      # the tree the children import from: a snapshot of the package taken when the check starts, so that
+                       # a commit landing in the repository while the check runs cannot make model and children disagree
 
 
 # ----------------------------------------------------------------------------------------------------------------
@@ -96,6 +100,9 @@ class _Obs:
         return None
 sys.meta_path.insert(0, _Obs)
 _res = {'boot': sorted(_boot), 'bootbound': sorted(_bootb), 'steps': []}
+_chain = len(sys.argv) > 3 and sys.argv[3] == 'chain'
+_pl = set(_boot)
+_pb = set(_bootb)
 for _m in sys.argv[2].split(','):
     _st = {'m': _m, 'ok': True}
     _n0 = len(_log)
@@ -119,6 +126,16 @@ for _m in sys.argv[2].split(','):
         _st['line'] = _ln
         _st['stdlib'] = _st['ename'].split('.')[0] in getattr(sys, 'stdlib_module_names', ())
     _st['starts'] = _log[_n0:]
+    if _chain:      # a long chain of imports: only what this import added, and go on after a failure
+        _nl = set(sys.modules)
+        _nb = _bnd()
+        _st['dl'] = sorted(_nl - _pl)
+        _st['db'] = sorted(_nb - _pb)
+        _st['gone'] = sorted((_pl - _nl) | (_pb - _nb))
+        _pl = _nl
+        _pb = _nb
+        _res['steps'].append(_st)
+        continue
     _st['loaded'] = sorted(set(sys.modules) - _boot)
     _st['bound'] = sorted(_bnd() - _bootb)
     _res['steps'].append(_st)
@@ -133,7 +150,7 @@ print('VFOUT ' + repr(_res))
 def _bare(prog, args, timeout=300):
     """run a program in a BARE interpreter: isolated mode, no pre-imports; the tree under test is put first on sys.path by the
     program itself (isolated mode ignores PYTHONPATH)"""
-    p = subprocess.run([env.PYTHON, "-I", "-B", "-c", prog, env.REPO] + list(args), env=env.child_env(), cwd=env.subdir("c01cwd"),
+    p = subprocess.run([env.PYTHON, "-I", "-B", "-c", prog, ROOT[0]] + list(args), env=env.child_env(), cwd=env.subdir("c01cwd"),
                        stdout=subprocess.PIPE, stderr=subprocess.PIPE, text=True, errors="replace", timeout=timeout)
     for ln in reversed(p.stdout.splitlines()):
         if ln.startswith("VFOUT "):
@@ -775,8 +792,21 @@ def _run_order(order):
     return r
 
 
+def _run_chain(order):
+    r = _bare(_CHILD, [",".join(order), "chain"], timeout=900)
+    r["order"] = list(order)
+    return r
+
+
+def _chain_events(run):
+    evs = [{"ev": "Boot"}]
+    for st in run["steps"]:
+        evs.append({"ev": "ImportMore", "m": st["m"], "order": _starts(st), "dl": st["dl"], "db": st["db"]})
+    return evs
+
+
 def _fail_signature(st):
-    msg = re.sub(r" \(/[^)]*\)", "", st["emsg"]).replace(env.REPO, "<repo>")
+    msg = re.sub(r" \(/[^)]*\)", "", st["emsg"]).replace(ROOT[0], "<repo>").replace(env.REPO, "<repo>")
     return "%s: %s" % (st["etype"], msg)
 
 
@@ -834,7 +864,12 @@ def _lap(what):
 def run_c01(ctx):
     import time
     _T0[0] = time.time()
-    tree = Tree(env.REPO)
+    import shutil
+    snap = env.subdir("c01snap")
+    shutil.rmtree(os.path.join(snap, PKG), ignore_errors=True)
+    shutil.copytree(os.path.join(env.REPO, PKG), os.path.join(snap, PKG), ignore=shutil.ignore_patterns("__pycache__", "*.pyc"))
+    ROOT[0] = snap
+    tree = Tree(ROOT[0])
     if not tree.mods:
         raise TlcError("no ioflo modules found under %s" % env.REPO)
     oracle = Oracle()
@@ -883,8 +918,8 @@ def run_c01(ctx):
     runs = dict(zip(tree.mods, _pmap(lambda m: _run_order([m]), tree.mods)))
     _lap("real boot edges")
     for m, r in runs.items():
-        if r["file"] and not r["file"].startswith(env.REPO):
-            raise TlcError("bare child imported ioflo from %s instead of %s" % (r["file"], env.REPO))
+        if r["file"] and not r["file"].startswith(ROOT[0]):
+            raise TlcError("bare child imported ioflo from %s instead of the snapshot of %s" % (r["file"], env.REPO))
     good, skipped, causes = [], [], {}
     for m in tree.mods:
         st = runs[m]["steps"][0]
@@ -963,8 +998,83 @@ def run_c01(ctx):
                 break
             cand = list(good) if n >= len(good) else sorted(rng.sample(good, n))
             ok = model_run(label, cand, depth, True, ["NoFailure", "OrderIndependent"], None)
-        # (c) seeded orders executed for real, validated by TLC against ImportsTrace.tla
-        norders = ctx.pick(48, 300)
+        # (c) ordered pairs, systematically: for every module m1 one bare child imports m1 first and then every other module
+        #     in turn; each import must end as it does alone (Import(m) does not depend on what is loaded) and add exactly
+        #     what the cold closures say; thorough adds, per m1, a chain with the rest in seeded random order
+        chains = [[m1] + [m for m in good if m != m1] for m1 in good]
+        if not ctx.quick:
+            for m1 in good:
+                rest = [m for m in good if m != m1]
+                rng.shuffle(rest)
+                chains.append([m1] + rest)
+        chruns = _pmap(_run_chain, chains)
+        _lap("real chains")
+        clean = []
+        reported = set()
+        for r in chruns:
+            have_l, have_b = set(), set()
+            okchain = True
+            for k, st in enumerate(r["steps"]):
+                if not st["ok"]:
+                    okchain = False
+                    sig = (st["where"], _fail_signature(st))
+                    if sig in reported:
+                        break
+                    reported.add(sig)
+                    # which earlier import is to blame: the first predecessor after which the import alone fails as well
+                    culprit, pair = None, None
+                    for pr in _pmap(lambda p: _run_order([p, st["m"]]), r["order"][:k]):
+                        if len(pr["steps"]) == 2 and not pr["steps"][1]["ok"]:
+                            culprit, pair = pr["order"][0], pr["steps"][1]
+                            break
+                    after = culprit if culprit else ",".join(r["order"][:k][:3]) + (",..." if k > 3 else "")
+                    ctx.diverge(Divergence("C01", "exception", "Import", st["where"] or st["m"], "after %s: %s" % (after, _fail_signature(st)),
+                                           steps=[{"action": "Import(%s)" % (culprit or r["order"][0]), "state": {"ok": True}},
+                                                  {"action": "Import(%s)" % st["m"], "state": {"ok": False}}],
+                                           expected="`import %s` ends as it does in a fresh interpreter (it succeeds) whatever was imported before" % st["m"],
+                                           actual="%s at %s:%s" % (_fail_signature(st), st["where"], st["line"]),
+                                           extra={"chain_head": r["order"][0], "position": k, "culprit": culprit}))
+                    break
+                want_l = set(model[st["m"]]["loaded"]) - have_l
+                want_b = set(model[st["m"]]["bound"]) - have_b
+                if set(st["dl"]) != want_l or set(st["db"]) != want_b or st["gone"] or (k == 0 and _starts(st) != list(model[st["m"]]["order"])):
+                    okchain = False
+                    if ("sets", st["m"]) not in reported:
+                        reported.add(("sets", st["m"]))
+                        ctx.diverge(Divergence("C01", "state-mismatch", "Import", "loaded" if set(st["dl"]) != want_l else "bound",
+                                               "chain starting with %s: `import %s` (position %d) adds / removes other modules than its cold closure says: %s"
+                                               % (r["order"][0], st["m"], k, sorted((set(st["dl"]) ^ want_l) | (set(st["db"]) ^ want_b) | set(st["gone"]))[:6]),
+                                               extra={"chain_head": r["order"][0]}))
+                    break
+                have_l |= set(model[st["m"]]["loaded"])
+                have_b |= set(model[st["m"]]["bound"])
+            if okchain:
+                clean.append(r)
+        # the chains are recorded executions as well: TLC validates them (quick: a seeded sample) against ImportsTrace.tla
+        nval = ctx.pick(6, len(clean))
+        valchains = clean if nval >= len(clean) else rng.sample(clean, nval)
+        if valchains:
+            cjc = write_consts("chains", tree.mods)
+            traces = [_chain_events(r) for r in valchains]
+            with _Env(IMPORTS_JSON=cjc, EDGE_DIR=edges, CLOSURE_JSON=clj):
+                out = trace.validate("ImportsTrace", _cfg(1000, True, [], "TraceOK", trace_spec=True), SPEC_DIR, traces,
+                                     batch=max(1, -(-len(traces) // (2 * env.NCPU))))
+            ctx.states += out.states
+            ctx.transitions += out.generated
+            _lap("validated chains")
+            if out.rejected or out.model_errors:
+                i, pref = sorted(out.rejected.items())[0] if out.rejected else (out.model_errors[0][0], 0)
+                ev = traces[i][pref] if 0 <= pref < len(traces[i]) else {}
+                ev = {k: (v if not isinstance(v, list) else v[:6]) for k, v in ev.items()}
+                raise TlcError("a recorded chain of imports is not a behaviour of Imports.tla with the ast-derived constants "
+                               "(chain %s..., event %d: %r)" % (valchains[i]["order"][:2], pref + 1, ev))
+            nacc += len(out.accepted)
+            ctx.add_validated(len(out.accepted), {"validated": "chain", "head": valchains[0]["order"][0], "imports": len(valchains[0]["order"]),
+                                                  "events": [{k: (v if not isinstance(v, list) else len(v)) for k, v in e.items()} for e in traces[0][:4]]})
+        ctx.extra.update({"chains_executed": len(chains), "chains_validated_by_tlc": len(valchains),
+                          "ordered_pairs_covered": len(good) * (len(good) - 1)})
+        # (d) seeded orders executed for real, validated by TLC against ImportsTrace.tla
+        norders = ctx.pick(0, 300)      # quick: the chains above are the executed orders
         orders = [rng.sample(good, min(2 + (i % 3), len(good))) for i in range(norders)]
         real = _pmap(_run_order, orders)
         _lap("real orders")
@@ -983,7 +1093,7 @@ def run_c01(ctx):
             okruns.append(r)
         nord = len(orders)
         # (the single imports were compared with the model edge by edge above; some are also validated step by step)
-        nmicro = ctx.pick(10, 60)
+        nmicro = ctx.pick(0, 60)
         micro = okruns[:nmicro] + [runs[m] for m in rng.sample(good, min(ctx.pick(6, 30), len(good)))]
         cj3 = write_consts("trace", tree.mods)
         for (label, rs, atomic, batch) in (("atomic", okruns, True, max(4, -(-len(okruns) // env.NCPU))),
@@ -1012,9 +1122,12 @@ def run_c01(ctx):
     ctx.rule = ("every Boot --Import(m)--> edge of Imports.tla for all %d ioflo modules replayed as `python -I -c 'import m'` in a bare "
                 "child (outcome, ioflo load order, loaded and bound deltas compared); TLC explores all ordered pairs of all modules and all "
                 "triples / quadruples over seeded subsets (NoFailure, OrderIndependent), and the small-step model over a seeded subset; "
+                "every ordered pair m1-before-m2 executed inside per-module chains (m1, then every other module) in bare children, each import "
+                "compared with its cold result and closure, chains validated by TLC; "
                 "seeded orders of 2-4 modules executed in bare children and their recorded load-start / sys.modules traces validated "
                 "by TLC against ImportsTrace.tla; distinct = modules + orders" % len(tree.mods))
-    ctx.extra.update({"evaluations": len(tree.mods) + nord, "distinct_nontrivial": len(good) + nord, "modules_ok": len(good),
+    ctx.extra.update({"evaluations": len(tree.mods) + nord + sum(len(c) for c in chains) if len(good) >= 2 else len(tree.mods),
+                      "distinct_nontrivial": len(good) + nord + (len(good) * (len(good) - 1) if len(good) >= 2 else 0), "modules_ok": len(good),
                       "modules_skipped_third_party": [m for m, _ in skipped], "orders_executed": nord, "traces_accepted": nacc})
     ctx.assume("constants of the model come from ast (ioflo) and from bare-child measurements (non-ioflo closures, Boot); recorded "
                "executions validated against the model keep them honest; TLC and the child observer are trusted")
